@@ -31,29 +31,30 @@ GRAMMAR = r"""
 Model: items+=Item;
 Item: Box | Val;
 Box: 'box' name=ID '{' items*=Item '}';
-Val: 'val' name=ID '=' v=Ver;
+Val: 'val' name=ID '=' v=Ver ('@' w=Num)?;
 Ver: Num ('.' Num)?;
-Num: /\d+/;
+Num: /(\d+)/;
 """
-# Num matches also occur as later parts of the multi-part match rule Ver
+# Num matches also occur as later parts of the multi-part match rule Ver, and as a directly assigned terminal (w=Num)
 TEXTS = [
-    "box a {\n  val x = 1.5\n  box b {\n\n   val y = 22 .\n 4 }\n}\nval z = 333",
-    "\n\n val q = 7 box c { val r = 8\n\t.\n\t 66 val s = 9 }",
+    "box a {\n  val x = 1.5\n  box b {\n\n   val y = 22 .\n 4 @\n\n     12}\n}\nval z = 333 @ 5",
+    "\n\n val q = 7 box c { val r = 8\n\t.\n\t 66 @\n 3 val s = 9 }",
 ]
 
 
-def build_mm(grammar_file):
+def build_mm(grammar_file, regexp_group=False):
     """the grammar given as a string, or loaded from a .tx file (then the classes carry the
-    grammar's file name, which must never be mistaken for the model's)"""
+    grammar's file name, which must never be mistaken for the model's); regexp_group: the
+    metamodel option use_regexp_group (the value of Num's one-group regex is then that group: the same text)"""
     from textx import metamodel_from_str, metamodel_from_file
     if not grammar_file:
-        return metamodel_from_str(GRAMMAR)
+        return metamodel_from_str(GRAMMAR, use_regexp_group=bool(regexp_group))
     d = tempfile.mkdtemp(prefix='c33g_')
     p = os.path.join(d, 'lang.tx')
     try:
         with open(p, 'w') as f:
             f.write(GRAMMAR)
-        return metamodel_from_file(p)
+        return metamodel_from_file(p, use_regexp_group=bool(regexp_group))
     finally:
         os.remove(p)
         os.rmdir(d)
@@ -76,6 +77,7 @@ def term(v):
 def run(item):
     ti, target, wrap, from_file, timeout_ms = item[:5]
     grammar_file = len(item) > 5 and item[5]
+    regexp_group = len(item) > 6 and item[6]
     from textx import metamodel_from_str
     from textx.exceptions import TextXError
     from textx.model import textxerror_wrap
@@ -89,7 +91,7 @@ def run(item):
     K = z3.Int('K')
 
     def path(c):
-        mm = build_mm(grammar_file)
+        mm = build_mm(grammar_file, regexp_group)
         count = [0]
         info = {}
         supplied = {}
@@ -206,6 +208,7 @@ def replay_case(item, index, supplied_fields):
     """concrete replay: the same failure with concrete supplied values"""
     ti, target, wrap, from_file = item[:4]
     grammar_file = len(item) > 5 and item[5]
+    regexp_group = len(item) > 6 and item[6]
     from textx import metamodel_from_str
     from textx.exceptions import TextXError
     from textx.model import textxerror_wrap
@@ -216,7 +219,7 @@ def replay_case(item, index, supplied_fields):
     with open(fn, 'w') as f:
         f.write(text)
     vals = {'line': 71, 'col': 72, 'filename': 'supplied.file', 'nchar': 73}
-    mm = build_mm(grammar_file)
+    mm = build_mm(grammar_file, regexp_group)
     count = [0]
     info = {}
 
@@ -270,6 +273,8 @@ def main():
                 for from_file in (False, True):
                     items.append((ti, target, wrap, from_file, 20000, False))
                     items.append((ti, target, wrap, from_file, 20000, True))
+                    if target == 'match':
+                        items.append((ti, target, wrap, from_file, 20000, False, True))     # use_regexp_group
     results = pmap(run, items)
     chk.cov['functions_encoded'] = src_hash(MM.TextXMetaModel.process, M.get_location, M.textxerror_wrap,
                                             M.parse_tree_to_objgraph)
